@@ -50,3 +50,13 @@ def horus_subsecond(args, rec):
         if not (0 <= req - got < 1000 and got % 1000 == 0):
             return False
     return bool(msgs)
+
+
+def quadtree_drops_outside_points(args, rec):
+    """QuadtreeGrid2D.get_index_of returns no entry for a point outside of the grid (pinned by
+    tests/test_spatial.py::TestQuadtreeGrid2D::test_wrong_coordinates)"""
+    msgs = (rec.get('replay') or {}).get('violated_clauses') or []
+    if not msgs:
+        return False
+    return all(('get_index_of returned' in m and 'indices' in m and '-1 = outside the grid' in m and '-1' in m.split('cells required:')[-1])
+               for m in msgs)
